@@ -127,7 +127,7 @@ func (e emitter) commonRenderedLine(ds DividerSet, cellStrs []WidthString, colAl
 		fields[len(fields)-1] = ds.Right
 	} else if ds.Right != "" {
 		fields = append(fields, ds.Right)
-	} else if ds.Inner != "" {
+	} else if ds.Inner != "" && len(fields) > 0 {
 		fields = fields[:len(fields)-1]
 	}
 	return strings.Join(fields, " ") + e.eol
